@@ -58,11 +58,20 @@ def flatten(exc, seen=None):
     return seen
 
 
-def make_payload(flavour, body):
-    """body() is plain python run inside the payload (may raise / return)"""
+def make_payload(flavour, body, at_call=False):
+    """body() is plain python run inside the payload (may raise / return).  at_call: for coroutine flavours
+    the payload is a plain callable that runs body() when CALLED and only then hands back an awaitable - a
+    payload may fail before there is anything to await (wrong arguments, a factory that raises)"""
     if flavour == "threading":
         def payload():
             return body()
+    elif at_call:
+        def payload():
+            value = body()
+
+            async def done():
+                return value
+            return done()
     else:
         async def payload():
             return body()
